@@ -97,6 +97,13 @@ def play_history(bins, beh, n, hist, rng):
                 steps.append({"op": "exit", "code": code})
                 fx.add_cmd(t, cmd, steps, ext=".sh")
             args = ["run", "-c", cmd, "-t"] + tsel
+            if rno % 3 == 0:
+                # every third run has a second (silent) command: when the first one fails it is skipped and leaves its log
+                # directories empty; when the slot is reused its files must not survive either
+                post = "post%d" % (rno % 2)
+                for t in TARGETS:
+                    fx.add_cmd(t, post, [{"op": "exit", "code": 0}], ext=".sh")
+                args = ["run", "-c", cmd, post, "-t"] + tsel
             # which targets actually run: serial over tsel, stopping after the failing one
             for t in tsel:
                 exp += [(t, "out"), (t, "err")]
@@ -133,7 +140,7 @@ def play_history(bins, beh, n, hist, rng):
                     printed[rno] = res["out"]
                     slot = int(os.path.basename(res["out"]["out"]["run"]["path"]))
                     # explicit targets are iterated in hash order: which of them ran is read from the document
-                    ran = [t for cr in res["out"]["results"] for g in cr["target_groups"] for t, v in g.items()
+                    ran = [t for cr in res["out"]["results"][:1] for g in cr["target_groups"] for t, v in g.items()
                            if v.get("status") in ("success", "error")]
                     expected[rno] = [(t, s) for t in ran for s in ("out", "err")]
                 ev.append({"ev": "run", "r": rno, "kind": "complete", "n_effects": 5, "ok": ok, "slot": slot, "rc": res["rc"] if res["rc"] is not None else -9,
